@@ -25,9 +25,11 @@ var weights = []string{"", "", "", ";q=1", ";q=0.5", ";q=0", ";q=0.0", ";q=0.000
 var seps = []string{",", ", ", " , ", ",\t", ",  "}
 
 func genAE(r *vh.Rand) string {
-	switch r.Intn(12) {
+	switch r.Intn(14) {
 	case 0:
 		return ""
+	case 2, 3, 4:
+		return r.Pick("gzip", "br", "gzip, br", "br,gzip", "gzip, deflate, br", "deflate, gzip", "GZIP", "identity, br")
 	case 1: // malformed / unusual shapes
 		return r.Pick("gzip br", "foo gzip", "gzip\tbar", "xgzip", "gzip-br", "gzip;", ",gzip", "gzip,", " gzip", "gzip ", "br ;q=0", ",,", "brotli", "gzip=1", "a gzip b", "gzip/br")
 	}
@@ -65,7 +67,7 @@ func genH(r *vh.Rand) string {
 	var rs []string
 	for i := 0; i < n; i++ {
 		h := "T"
-		if r.Chance(1, 3) {
+		if r.Chance(1, 4) {
 			h = "F"
 		}
 		rs = append(rs, h+r.Pick("G", "B"))
